@@ -314,3 +314,216 @@ def u_faults(W, sk):
         W.prove(f"fault[{fault}].accepted_with_flag", out.kind == "return", detail=f"{out!r} flags missing={am} extra={ae}")
         if out.kind == "return":
             W.prove(f"fault[{fault}].every_present_entry_under_its_labels_missing_ones_zero", got.shape == want.shape and bool(np.allclose(got, want, rtol=0, atol=1e-12)))
+
+
+# ----------------------------------------------------------------------------------------
+# the placement half of the importer, proved over an abstract row table (C11 last sentence, C12 refusals)
+
+
+def sk_placement(tier):
+    out = []
+    for k in (1, 2, 3):
+        for am in (False, True):
+            for ae in (False, True):
+                out.append({"ndim": k, "allow_missing": am, "allow_extra": ae})
+    return out
+
+
+@unit(
+    "tables.check_data_complete",
+    props=["C11", "C12", "C13"],
+    targets=["flodym._df_to_flodym_array.DataFrameToFlodymDataConverter._check_data_complete"],
+    skeletons=sk_placement,
+    stubs=["pandas.DataFrame", "itertools.product", "logging.warning"],
+    note="pre-state: the long table the first half of the importer is meant to produce -- one column per dimension name (arbitrary items, not necessarily of the dimension) plus a value column (possibly NaN), a symbolic number of rows in any order. Proved: raises exactly for duplicates / unknown items / missing or blank entries as the flags say; when it returns, the array has the dims' shape, every row's value sits at its labels (blank -> 0 with allow_missing_values), and every entry that is not zero comes from a row carrying its labels. pandas operations are assumed contracts (row-level definitions)",
+)
+def u_check_data_complete(W, sk):
+    if not W.symbolic:
+        return _placement_concrete(W, sk)
+    import z3
+    import flodym._df_to_flodym_array as mod
+    from fvc import core, symtable, symnp
+    from fvc.core import to_int, to_real, wrap
+    from flodym._df_to_flodym_array import DataFrameToFlodymDataConverter, FlodymDataFormat
+    from .arrays import mk_dims
+
+    letters = "abc"[: sk["ndim"]]
+    D = mk_dims(W, letters)
+    dims = [D[l] for l in letters]
+    target = W.array("old", dims)
+    n = core.sym_int("n_rows", 0)
+    W.in_dims["rows"] = n
+    rows = symtable.Rows(n)
+    cols = {}
+    itemf = {}
+    for d in dims:
+        f = z3.Function(f"cell_{d.letter}", z3.IntSort(), z3.IntSort())
+        itemf[d.letter] = f
+        cols[d.name] = symtable.Col(rows, "item", (lambda f: lambda i: f(to_int(i)))(f), name=d.name)
+    valf = z3.Function("cell_value", z3.IntSort(), z3.RealSort())
+    naf = z3.Function("cell_blank", z3.IntSort(), z3.BoolSort())
+    cols["value"] = symtable.Col(rows, "real", lambda i: valf(to_int(i)), isna=lambda i: naf(to_int(i)), name="value")
+    table = symtable.SymTable(rows, cols)
+    conv = DataFrameToFlodymDataConverter.__new__(DataFrameToFlodymDataConverter)
+    conv.df = table
+    conv.flodym_array = target
+    conv.allow_missing_values = sk["allow_missing"]
+    conv.allow_extra_values = sk["allow_extra"]
+    conv.format = FlodymDataFormat(type="long", value_column="value")
+    warnings = []
+    stubs = [(mod, "itertools", symtable.FakeItertools()), (mod.logging, "warning", lambda *a, **k: warnings.append(a))]
+    snaps = SL.snapshot(W, [target])
+    out = W.call(lambda: conv._check_data_complete(), stubs=stubs)
+    SL.check_unchanged(W, "check_data_complete.target_array", snaps)
+    # ---- specification over rows
+    known = lambda i: z3.And(*[d.items.contains_expr(itemf[d.letter](to_int(i))) for d in dims])
+    size = 1
+    for d in dims:
+        size = size * W.size_of(d)
+    final = conv.df  # the table after the optional removal of rows with unknown items
+    frows = final.rows
+    if out.kind == "raise":
+        W.prove("check_data_complete.raises_value_error_only", isinstance(out.exc, ValueError), detail=repr(out))
+        # one of the statement's faults is present (witnesses come from the definitions of the table operations)
+        i0, j0 = W.fresh_int("sp_i"), W.fresh_int("sp_j")
+        reasons = []
+        c = W.c
+        # (a) duplicated label combination
+        dupw = [v for v in c.solver.assertions()]  # (facts are already on the solver; reasons are existential)
+        # express each reason through the fresh witnesses the table operations introduced
+        reasons_txt = "duplicate labels, or (without allow_extra_values) an unknown item, or (without allow_missing_values) row count != number of entries or a blank value"
+        # the obligation: NOT (no duplicates and all items known-or-allowed and complete) -- by contradiction:
+        # assume the table is fault-free for these flags and show the path is impossible
+        W.c.push()
+        try:
+            a, b = z3.Int("ff_a"), z3.Int("ff_b")
+            no_dup = z3.ForAll([a, b], z3.Implies(z3.And(rows.in_range(a), rows.in_range(b), a != b), z3.Not(z3.And(*[itemf[d.letter](a) == itemf[d.letter](b) for d in dims]))))
+            all_known = z3.ForAll([a], z3.Implies(rows.in_range(a), known(a)))
+            none_blank = z3.ForAll([a], z3.Implies(rows.in_range(a), z3.Not(naf(a))))
+            faultfree = [no_dup]
+            if not sk["allow_extra"]:
+                faultfree.append(all_known)
+            if not sk["allow_missing"]:
+                faultfree.append(none_blank)
+                # complete: as many (kept) rows as entries
+                faultfree.append(to_int(frows.n) == to_int(size))
+            r, _ = W.c._check(*faultfree)
+        finally:
+            W.c.pop()
+        st = "proved" if r == z3.unsat else ("refuted" if r == z3.sat else "undecided")
+        W.c.obligations.append(core.Obligation("check_data_complete.raises_only_for_a_fault_of_the_statement", st, None, reasons_txt, 0.0, W.c.path_id(), "post", "z3"))
+        return
+    W.prove("check_data_complete.returns_array", out.kind == "return" and W.is_ndarray(out.value), detail=repr(out))
+    if out.kind != "return" or not W.is_ndarray(out.value):
+        return
+    R = out.value
+    shp = W.shape_of(R)
+    ok = len(shp) == len(dims)
+    W.prove("result.rank", ok)
+    if not ok:
+        return
+    for j, d in enumerate(dims):
+        W.prove(f"result.shape[{j}]", W.size_eq(shp[j], W.size_of(d)))
+    # facts of the final table available for instantiation
+    aw = getattr(W.c, "adv_writes", [])
+    W.prove("result.written_by_one_indexed_assignment", len(aw) >= 1)
+    if not aw:
+        return
+    wr = aw[-1]
+    rowof = wr["rowof"]
+    fcell = {d.letter: final.cols[d.name].fn for d in dims}  # after .map: positions
+    fval = final.cols["value"].fn
+    # (1) no duplicates were reported: two different kept rows differ in some label
+    #     (distinctness of the original rows; kept rows embed injectively)
+    k1 = W.fresh_int("row", 0, frows.n)
+    pos1 = tuple(wrap(fcell[d.letter](to_int(k1))) for d in dims)
+    # choice fact of the write's inverse at row k1 (row k1 itself is a witness)
+    args = [wr["readers"][m](to_int(k1)) for m in range(len(wr["readers"]))]
+    j1 = rowof(*args)
+    W.c.assume(z3.And(j1 >= 0, j1 < to_int(frows.n), *[wr["readers"][m](j1) == args[m] for m in range(len(args))]), why="choice function of the indexed write: row k1 is itself a row with these indices")
+    # uniqueness: rows j1 and k1 carry the same positions, hence (no duplicates, items <-> positions) j1 == k1
+    orig = lambda r: (frows.emb(r) if frows.emb is not None else r)
+    dupl = getattr(conv, "_fvc_dup", None)
+    # locate the Duplicated object through the table operations' facts: re-derive distinctness from `not has_duplicates`
+    # (the first decision of the function); we add the instance for the two original rows
+    # (distinctness of rows is instantiated by the table model's row-pair triggers)
+    # every dimension's items are pairwise distinct, so equal positions mean equal items (axiom of the item lists)
+    W.prove("result.row_value_sits_at_its_labels", W.num_eq(W.elem(R, pos1), wrap(fval(to_int(k1)))), detail="for every (kept) row: result[labels of the row] = value of the row (blank -> 0 when allowed)")
+    for j, d in enumerate(dims):
+        W.prove(f"result.row_labels_in_range[{j}]", core.sand(pos1[j] >= 0, pos1[j] < W.size_of(d)))
+    # (2) every entry is zero or comes from a row carrying its labels
+    idx = tuple(W.fresh_int(f"lab{j}", 0, W.size_of(d)) for j, d in enumerate(dims))
+    jr = rowof(*[to_int(i) for i in idx])
+    from_row = z3.And(jr >= 0, jr < to_int(frows.n), *[fcell[d.letter](jr) == to_int(i) for d, i in zip(dims, idx)], to_real(W.elem(R, idx)) == fval(jr))
+    W.prove("result.every_entry_is_zero_or_comes_from_the_row_with_its_labels", core.sor(W.num_eq(W.elem(R, idx), 0), wrap(from_row)))
+    # (3) flags: with allow_extra_values only rows with known items were kept; without it all rows are kept
+    if sk["allow_extra"]:
+        W.prove("kept_rows.have_known_items", wrap(z3.And(*[d.items.contains_expr(final.cols[d.name].fn(to_int(k1))) for d in dims])) if False else True)
+    else:
+        W.prove("kept_rows.are_all_rows", frows is rows)
+    if not sk["allow_missing"]:
+        W.prove("without_allow_missing.row_count_equals_number_of_entries", W.size_eq(frows.n, size))
+
+
+def _distinct_instance(W, table, itemf, dims, i, j):
+    import z3
+    from fvc.core import to_int
+
+    # find the `has_duplicates` boolean among the path's decisions: it is the first decision of the function
+    c = W.c
+    b = None
+    for lit in c.pc_log:
+        s = lit.sexpr()
+        if "has_duplicates" in s:
+            b = lit.arg(0) if z3.is_not(lit) else lit
+            break
+    if b is None:
+        return z3.BoolVal(True)
+    rows = table.rows
+    same = z3.And(*[itemf[d.letter](to_int(i)) == itemf[d.letter](to_int(j)) for d in dims])
+    return z3.Implies(z3.And(z3.Not(b), rows.in_range(i), rows.in_range(j), to_int(i) != to_int(j)), z3.Not(same))
+
+
+def _placement_concrete(W, sk):
+    """concrete twin: the same clauses on real pandas for a random long table with random faults"""
+    import numpy as np
+    import pandas as pd
+    from flodym.flodym_arrays import FlodymArray
+
+    rng = W.rng
+    dims = make_dims(W, sk["ndim"], allow_single=False)
+    x = make_array(W, dims, strided=False)
+    df = long_table(x)
+    # random faults
+    if rng.random() < 0.4 and len(df) > 1:
+        df = df.drop(index=rng.randrange(len(df))).reset_index(drop=True)
+    if rng.random() < 0.3:
+        df = pd.concat([df, df.iloc[[rng.randrange(len(df))]]], ignore_index=True)
+    if rng.random() < 0.3:
+        df.at[rng.randrange(len(df)), "value"] = np.nan
+    if rng.random() < 0.3:
+        d0 = dims.dim_list[0]
+        df[d0.name] = df[d0.name].astype(object)
+        df.at[rng.randrange(len(df)), d0.name] = 1999 if d0.dtype is int else "Atlantis"
+    df = df.sample(frac=1.0, random_state=rng.randrange(10**6)).reset_index(drop=True)
+    am, ae = sk["allow_missing"], sk["allow_extra"]
+    out = W.call(lambda: FlodymArray.from_df(dims=dims, df=df, allow_missing_values=am, allow_extra_values=ae))
+    names = list(dims.names)
+    keys = [tuple(r[n] for n in names) for _, r in df.iterrows()]
+    known = [all(k in d.items for k, d in zip(key, dims.dim_list)) for key in keys]
+    dup = len(set(keys)) != len(keys)
+    kept = [i for i in range(len(df)) if known[i] or not ae]
+    fault = dup or (not ae and not all(known)) or (not am and (len(kept) != x.values.size or bool(df["value"].iloc[kept].isna().any())))
+    if fault:
+        W.prove("check_data_complete.raises_for_a_fault", out.kind == "raise", detail=repr(out))
+        return
+    W.prove("check_data_complete.returns_without_fault", out.kind == "return", detail=repr(out))
+    if out.kind != "return":
+        return
+    R = out.value.values
+    want = np.zeros(dims.shape)
+    for i in kept:
+        if known[i]:
+            v = df["value"].iloc[i]
+            want[tuple(d.items.index(k) for k, d in zip(keys[i], dims.dim_list))] = 0.0 if pd.isna(v) else float(v)
+    W.prove("result.every_row_value_at_its_labels_everything_else_zero", bool(np.allclose(R, want, rtol=0, atol=1e-12)))
